@@ -372,9 +372,9 @@ void rcu_list<T, M, Alloc>::emplace_back"""}]},
         "new": "        std::lock_guard<std::mutex> lock(triggerLock);\n        triggered.store(true);\n        if (!activated.load()) {\n            return false;\n        }"}]},
 
     # ---------------------------------------------------------------- tripwire
-    {"name": "tw-store-relaxed", "props": ["C19"], "edits": [{"file": "gmlc/concurrency/TripWire.hpp",
+    {"name": "tw-store-relaxed", "props": ["C19", "C07"], "edits": [{"file": "gmlc/concurrency/TripWire.hpp",
         "old": "lineTrigger->store(true, std::memory_order_release);", "new": "lineTrigger->store(true, std::memory_order_relaxed);"}]},
-    {"name": "tw-load-relaxed", "props": ["C19"], "edits": [{"file": "gmlc/concurrency/TripWire.hpp",
+    {"name": "tw-load-relaxed", "props": ["C19", "C07"], "edits": [{"file": "gmlc/concurrency/TripWire.hpp",
         "old": "return lineDetector->load(std::memory_order_acquire);", "new": "return lineDetector->load(std::memory_order_relaxed);"}]},
     {"name": "tw-trip-in-ctor", "props": ["C19"], "edits": [{"file": "gmlc/concurrency/TripWire.hpp",
         "old": "explicit TripWireTrigger(TriplineType line): lineTrigger(std::move(line)) {}",
@@ -531,4 +531,32 @@ void rcu_list<T, M, Alloc>::emplace_back"""}]},
     {"name": "cow-lock-manual-mutex", "props": ["C20"], "edits": [{"file": "gmlc/libguarded/cow_guarded.hpp",
         "old": "    std::unique_lock<M> guard(m_writeMutex);\n\n    auto data(m_data.lock_shared());\n    std::unique_ptr<T> val(new T(**data));\n    data.reset();\n\n    return handle(val.release(), deleter(std::move(guard), *this));\n}\n\ntemplate<typename T, typename M>\nauto cow_guarded<T, M>::try_lock()",
         "new": "    m_writeMutex.lock();\n\n    auto data(m_data.lock_shared());\n    std::unique_ptr<T> val(new T(**data));\n    data.reset();\n    std::unique_lock<M> guard(m_writeMutex, std::adopt_lock);\n\n    return handle(val.release(), deleter(std::move(guard), *this));\n}\n\ntemplate<typename T, typename M>\nauto cow_guarded<T, M>::try_lock()"}]},
+
+    # ---------------------------------------------------------------- C07 (memory orders)
+    {"name": "lr-acqrel-orders", "props": ["C07"], "edits": [
+        {"file": "gmlc/libguarded/lr_guarded.hpp", "old": "    m_readingLeft.store(!local_readingLeft);", "new": "    m_readingLeft.store(!local_readingLeft, std::memory_order_release);"},
+        {"file": "gmlc/libguarded/lr_guarded.hpp", "old": "    m_countingLeft.store(!local_countingLeft);", "new": "    m_countingLeft.store(!local_countingLeft, std::memory_order_release);"},
+        {"file": "gmlc/libguarded/lr_guarded.hpp", "old": "        while (m_rightReadCount.load() != 0) {\n            std::this_thread::yield();\n        }\n    } else {\n        while (m_leftReadCount.load() != 0) {\n            std::this_thread::yield();\n        }\n    }\n\n    m_countingLeft",
+         "new": "        while (m_rightReadCount.load(std::memory_order_acquire) != 0) {\n            std::this_thread::yield();\n        }\n    } else {\n        while (m_leftReadCount.load(std::memory_order_acquire) != 0) {\n            std::this_thread::yield();\n        }\n    }\n\n    m_countingLeft"},
+        {"file": "gmlc/libguarded/lr_guarded.hpp", "old": "    if (m_countingLeft) {\n        m_leftReadCount++;\n        if (m_readingLeft) {",
+         "new": "    if (m_countingLeft.load(std::memory_order_acquire)) {\n        m_leftReadCount.fetch_add(1, std::memory_order_acq_rel);\n        if (m_readingLeft.load(std::memory_order_acquire)) {"},
+        {"file": "gmlc/libguarded/lr_guarded.hpp", "old": "        m_rightReadCount++;\n        if (m_readingLeft) {",
+         "new": "        m_rightReadCount.fetch_add(1, std::memory_order_acq_rel);\n        if (m_readingLeft.load(std::memory_order_acquire)) {"}]},
+    {"name": "lr-reader-flag-relaxed", "props": ["C07"], "edits": [
+        {"file": "gmlc/libguarded/lr_guarded.hpp", "old": "    if (m_countingLeft) {\n        m_leftReadCount++;\n        if (m_readingLeft) {",
+         "new": "    if (m_countingLeft) {\n        m_leftReadCount++;\n        if (m_readingLeft.load(std::memory_order_relaxed)) {"}]},
+    {"name": "lr-deleter-relaxed", "props": ["C07"], "edits": [
+        {"file": "gmlc/libguarded/lr_guarded.hpp", "old": "                m_readingCount--;", "new": "                m_readingCount.fetch_sub(1, std::memory_order_relaxed);"}]},
+    {"name": "rcu-owner-clear-relaxed", "props": ["C07"], "edits": [
+        {"file": "gmlc/libguarded/rcu_list.hpp", "old": "    m_zombie->owner.store(nullptr);\n}", "new": "    m_zombie->owner.store(nullptr, std::memory_order_relaxed);\n}"}]},
+    {"name": "rcu-register-cas-relaxed", "props": ["C07"], "edits": [
+        {"file": "gmlc/libguarded/rcu_list.hpp", "old": "    } while (!list.m_zombie_head.compare_exchange_weak(oldNext, m_zombie));",
+         "new": "    } while (!list.m_zombie_head.compare_exchange_weak(oldNext, m_zombie, std::memory_order_relaxed));"}]},
+    {"name": "rcu-head-store-relaxed", "props": ["C07"], "edits": [
+        {"file": "gmlc/libguarded/rcu_list.hpp", "old": "        newNode->next.store(oldHead);\n        oldHead->back.store(newNode.get());\n        m_head.store(newNode.release());\n    }\n}\n\ntemplate<typename T, typename M, typename Alloc>\ntemplate<typename... Us>\nvoid rcu_list<T, M, Alloc>::emplace_front",
+         "new": "        newNode->next.store(oldHead);\n        oldHead->back.store(newNode.get());\n        m_head.store(newNode.release(), std::memory_order_relaxed);\n    }\n}\n\ntemplate<typename T, typename M, typename Alloc>\ntemplate<typename... Us>\nvoid rcu_list<T, M, Alloc>::emplace_front"}]},
+    {"name": "latch-fastpath-relaxed", "props": ["C07"], "edits": [
+        {"file": "gmlc/concurrency/Latch.hpp", "old": "            if (counter_ > 0) {", "new": "            if (counter_.load(std::memory_order_relaxed) > 0) {"}]},
+    {"name": "tv-wait-fastpath-relaxed", "props": ["C07"], "edits": [
+        {"file": "gmlc/concurrency/TriggerVariable.hpp", "old": "    bool wait() const\n    {\n        if (!activated.load()) {", "new": "    bool wait() const\n    {\n        if (!activated.load(std::memory_order_relaxed)) {"}]},
 ]
